@@ -12,6 +12,10 @@
              1..NSub  readers: the generator Mailbox._read driven by a consumer loop
              workers  one per future message (a message in Fut is a concurrent.futures.Future that
                       some worker thread completes at an arbitrary moment)
+             "K"      (WithKill) a thread that calls kill(upstream=True, reason) at an arbitrary moment - what the processor's
+                      main thread or a failing neighbour does; afterwards every thread must find its way out:
+                      readers raise MailboxKilled at their next look at the mailbox, the sender's send raises MailboxKilled,
+                      _send_from tells the source and kills the mailbox again (a no-op), a close() in flight raises
 
    P-level (property C05): InOrder, Complete, CapInv, NoError, NoDeadlock, Termination.        *)
 EXTENDS Naturals, Sequences, FiniteSets, TLC
@@ -24,7 +28,8 @@ CONSTANTS NMsg,     \* number of real messages; the StopIteration marker gets nu
           Mode,     \* "iter" | "perm"
           Perm,     \* Mode = "perm": sequence of message numbers in sending order
           Fut,      \* set of message numbers that are futures
-          RepairedFetch   \* TRUE: _can_fetch after the "fix:" commit (see CanFetchOf)
+          RepairedFetch,  \* TRUE: _can_fetch after the "fix:" commit (see CanFetchOf)
+          WithKill        \* TRUE: the killer thread K exists
 
 Subs == 1..NSub
 NoneV == 99          \* None in _subscriber_waiting_for
@@ -33,14 +38,15 @@ END == NMsg
 VARIABLES box,        \* set of message numbers in the heap
           haveRead,   \* _subscribers_have_read, offset +1 (0 = nothing read)
           waitFor,    \* _subscriber_waiting_for
-          nSent, closed, killed,
+          nSent, closed, killed, force,
+          kpc,        \* killer thread: "lock" (about to kill) | "done" (also when there is no killer)
           spc, si,    \* sender pc and number of sends completed
           rpc, rnext, ryield,   \* reader pc, next_number, to_yield
           got,        \* P-level history: what each subscriber's consumer received
           futDone,    \* set of completed futures
           wRead, wWrite, wFetch   \* waiter sets of the three conditions
 
-vars == <<box, haveRead, waitFor, nSent, closed, killed, spc, si, rpc, rnext, ryield, got, futDone,
+vars == <<box, haveRead, waitFor, nSent, closed, killed, force, kpc, spc, si, rpc, rnext, ryield, got, futDone,
           wRead, wWrite, wFetch>>
 
 Min(S) == CHOOSE x \in S : \A y \in S : x <= y
@@ -59,7 +65,7 @@ CanWrite == Cardinality(box) < CapEff \/ killed
 
 Init ==
   /\ box = {} /\ haveRead = [s \in Subs |-> 0] /\ waitFor = [s \in Subs |-> NoneV]
-  /\ nSent = 0 /\ closed = FALSE /\ killed = FALSE
+  /\ nSent = 0 /\ closed = FALSE /\ killed = FALSE /\ force = FALSE /\ kpc = (IF WithKill THEN "lock" ELSE "done")
   /\ spc = (IF Mode = "perm" THEN (IF NMsg = 0 THEN "close" ELSE "send")
             ELSE IF Lazy THEN "gate" ELSE "next")
   /\ si = 0
@@ -74,18 +80,18 @@ SGate ==  \* lazy _send_from: with lock: if not _can_fetch(): wait on _fetch_new
   /\ spc = "gate"
   /\ IF CanFetch THEN spc' = "next" /\ wFetch' = wFetch
      ELSE spc' = "wfetch" /\ wFetch' = wFetch \cup {<<"S", FALSE>>}
-  /\ UNCHANGED <<box, haveRead, waitFor, nSent, closed, killed, si, rpc, rnext, ryield, got, futDone, wRead, wWrite>>
+  /\ UNCHANGED <<box, haveRead, waitFor, nSent, closed, killed, force, kpc, si, rpc, rnext, ryield, got, futDone, wRead, wWrite>>
 
 SWakeFetch ==
   /\ spc = "wfetch" /\ <<"S", TRUE>> \in wFetch
   /\ IF CanFetch THEN spc' = "next" /\ wFetch' = wFetch \ {<<"S", TRUE>>}
      ELSE spc' = "wfetch" /\ wFetch' = (wFetch \ {<<"S", TRUE>>}) \cup {<<"S", FALSE>>}
-  /\ UNCHANGED <<box, haveRead, waitFor, nSent, closed, killed, si, rpc, rnext, ryield, got, futDone, wRead, wWrite>>
+  /\ UNCHANGED <<box, haveRead, waitFor, nSent, closed, killed, force, kpc, si, rpc, rnext, ryield, got, futDone, wRead, wWrite>>
 
 SNext ==  \* next(iterable), outside the lock
   /\ spc = "next"
   /\ IF si < NMsg THEN spc' = "send" ELSE spc' = "close"
-  /\ UNCHANGED <<box, haveRead, waitFor, nSent, closed, killed, si, rpc, rnext, ryield, got, futDone, wRead, wWrite, wFetch>>
+  /\ UNCHANGED <<box, haveRead, waitFor, nSent, closed, killed, force, kpc, si, rpc, rnext, ryield, got, futDone, wRead, wWrite, wFetch>>
 
 Closing == spc \in {"close", "wwriteC"}
 MsgNo == IF Closing THEN nSent ELSE IF Mode = "perm" THEN Perm[si + 1] ELSE nSent
@@ -98,7 +104,11 @@ DoPush(n) == /\ box' = box \cup {n} /\ nSent' = nSent + 1 /\ wRead' = NotifyAll(
 
 SSend ==  \* send(x) / close(): one critical section unless the mailbox is full
   /\ spc \in {"send", "close"}
-  /\ IF killed THEN     \* "Send to killed mailbox: message lost"
+  /\ IF force THEN      \* "Sender found mailbox force-killed": MailboxKilled; _send_from tells the source, then kills again;
+                        \* raised from close() (the else clause of _send_from) nothing catches it: the thread ends
+        /\ spc' = (IF Closing THEN "done" ELSE "rekill")
+        /\ UNCHANGED <<box, nSent, wRead, wWrite, si, closed>>
+     ELSE IF killed THEN     \* "Send to killed mailbox: message lost"
         /\ spc' = AfterSend /\ si' = si + 1 /\ closed' = (closed \/ Closing)
         /\ UNCHANGED <<box, nSent, wRead, wWrite>>
      ELSE IF MsgNo + 1 <= MinRead THEN     \* InvalidMessageNumber
@@ -110,13 +120,17 @@ SSend ==  \* send(x) / close(): one critical section unless the mailbox is full
      ELSE
         /\ DoPush(MsgNo) /\ spc' = AfterSend /\ si' = si + 1 /\ closed' = (closed \/ Closing)
         /\ UNCHANGED wWrite
-  /\ UNCHANGED <<haveRead, waitFor, killed, rpc, rnext, ryield, got, futDone, wFetch>>
+  /\ UNCHANGED <<haveRead, waitFor, killed, force, kpc, rpc, rnext, ryield, got, futDone, wFetch>>
 
 SWakeWrite ==
   /\ spc \in {"wwrite", "wwriteC"} /\ <<"S", TRUE>> \in wWrite
   /\ IF ~CanWrite THEN
         /\ wWrite' = (wWrite \ {<<"S", TRUE>>}) \cup {<<"S", FALSE>>}
         /\ UNCHANGED <<box, nSent, wRead, si, closed, spc>>
+     ELSE IF force THEN      \* woken by the kill: "Sender found mailbox killed while waiting for room": MailboxKilled
+        /\ wWrite' = wWrite \ {<<"S", TRUE>>}
+        /\ spc' = (IF Closing THEN "done" ELSE "rekill")
+        /\ UNCHANGED <<box, nSent, wRead, si, closed>>
      ELSE IF killed THEN
         /\ wWrite' = wWrite \ {<<"S", TRUE>>}
         /\ spc' = AfterSend /\ si' = si + 1 /\ closed' = (closed \/ Closing)
@@ -124,9 +138,24 @@ SWakeWrite ==
      ELSE
         /\ wWrite' = wWrite \ {<<"S", TRUE>>}
         /\ DoPush(MsgNo) /\ spc' = AfterSend /\ si' = si + 1 /\ closed' = (closed \/ Closing)
-  /\ UNCHANGED <<haveRead, waitFor, killed, rpc, rnext, ryield, got, futDone, wFetch>>
+  /\ UNCHANGED <<haveRead, waitFor, killed, force, kpc, rpc, rnext, ryield, got, futDone, wFetch>>
+
+\* _send_from: except Exception -> kill_from_exception(MailboxKilled): kill(reason) on the already killed mailbox, one more locked section
+SReKill ==
+  /\ spc = "rekill" /\ spc' = "done"
+  /\ UNCHANGED <<box, haveRead, waitFor, nSent, closed, killed, force, kpc, si, rpc, rnext, ryield, got, futDone, wRead, wWrite, wFetch>>
+
+(* ------------------------------- killer ------------------------------- *)
+KKill ==   \* Mailbox.kill(upstream=True, reason): under the lock set killed / force_killed and notify all three conditions
+  /\ kpc = "lock" /\ kpc' = "done" /\ killed' = TRUE /\ force' = TRUE
+  /\ wRead' = NotifyAll(wRead) /\ wWrite' = NotifyAll(wWrite) /\ wFetch' = NotifyAll(wFetch)
+  /\ UNCHANGED <<box, haveRead, waitFor, nSent, closed, spc, si, rpc, rnext, ryield, got, futDone>>
 
 (* ------------------------------- readers ------------------------------- *)
+\* "Reader finds mailbox killed": waiting_for is cleared, MailboxKilled ends the consumer's loop and its thread
+ReaderKilled(s) ==
+  /\ waitFor' = [waitFor EXCEPT ![s] = NoneV] /\ rpc' = [rpc EXCEPT ![s] = "done"]
+  /\ UNCHANGED <<box, haveRead, rnext, ryield, wWrite, wFetch>>
 HasMsg(n) == killed \/ n \in box
 PcFor(n) == IF n \in Fut THEN "fwait" ELSE "yield"
 
@@ -157,21 +186,23 @@ RTop(s) ==
         /\ wRead' = wRead \cup {<<s, FALSE>>}
         /\ rpc' = [rpc EXCEPT ![s] = "wread"]
         /\ UNCHANGED <<box, haveRead, rnext, ryield, wWrite>>
+     ELSE IF killed THEN ReaderKilled(s) /\ UNCHANGED wRead
      ELSE Grab(s) /\ UNCHANGED wRead
-  /\ UNCHANGED <<nSent, closed, killed, spc, si, got, futDone>>
+  /\ UNCHANGED <<nSent, closed, killed, force, kpc, spc, si, got, futDone>>
 
 RWake(s) ==
   /\ rpc[s] = "wread" /\ <<s, TRUE>> \in wRead
   /\ IF ~HasMsg(rnext[s]) THEN
         /\ wRead' = (wRead \ {<<s, TRUE>>}) \cup {<<s, FALSE>>}
         /\ UNCHANGED <<box, haveRead, waitFor, rnext, ryield, rpc, wWrite, wFetch>>
+     ELSE IF killed THEN ReaderKilled(s) /\ wRead' = wRead \ {<<s, TRUE>>}
      ELSE Grab(s) /\ wRead' = wRead \ {<<s, TRUE>>}
-  /\ UNCHANGED <<nSent, closed, killed, spc, si, got, futDone>>
+  /\ UNCHANGED <<nSent, closed, killed, force, kpc, spc, si, got, futDone>>
 
 RFuture(s) == \* msg.result() returns (outside the lock), the message is handed to the consumer
   /\ rpc[s] = "fwait" /\ Head(ryield[s]) \in futDone
   /\ rpc' = [rpc EXCEPT ![s] = "yield"]
-  /\ UNCHANGED <<box, haveRead, waitFor, nSent, closed, killed, spc, si, rnext, ryield, got, futDone, wRead, wWrite, wFetch>>
+  /\ UNCHANGED <<box, haveRead, waitFor, nSent, closed, killed, force, kpc, spc, si, rnext, ryield, got, futDone, wRead, wWrite, wFetch>>
 
 RYield(s) == \* the consumer takes ONE grabbed message (outside the lock)
   /\ rpc[s] = "yield"
@@ -180,27 +211,27 @@ RYield(s) == \* the consumer takes ONE grabbed message (outside the lock)
        /\ IF rest = <<>> THEN rpc' = [rpc EXCEPT ![s] = "top"] /\ ryield' = [ryield EXCEPT ![s] = <<>>]
           ELSE IF Head(rest) = END THEN rpc' = [rpc EXCEPT ![s] = "done"] /\ ryield' = [ryield EXCEPT ![s] = <<>>]
           ELSE ryield' = [ryield EXCEPT ![s] = rest] /\ rpc' = [rpc EXCEPT ![s] = PcFor(Head(rest))]
-  /\ UNCHANGED <<box, haveRead, waitFor, nSent, closed, killed, spc, si, rnext, futDone, wRead, wWrite, wFetch>>
+  /\ UNCHANGED <<box, haveRead, waitFor, nSent, closed, killed, force, kpc, spc, si, rnext, futDone, wRead, wWrite, wFetch>>
 
 (* ------------------------------- workers ------------------------------- *)
 WComplete(n) ==
   /\ n \in Fut \ futDone
   /\ futDone' = futDone \cup {n}
-  /\ UNCHANGED <<box, haveRead, waitFor, nSent, closed, killed, spc, si, rpc, rnext, ryield, got, wRead, wWrite, wFetch>>
+  /\ UNCHANGED <<box, haveRead, waitFor, nSent, closed, killed, force, kpc, spc, si, rpc, rnext, ryield, got, wRead, wWrite, wFetch>>
 
-Sender == SGate \/ SWakeFetch \/ SNext \/ SSend \/ SWakeWrite
+Sender == SGate \/ SWakeFetch \/ SNext \/ SSend \/ SWakeWrite \/ SReKill
 Reader(s) == RTop(s) \/ RWake(s) \/ RFuture(s) \/ RYield(s)
-Next == Sender \/ (\E s \in Subs : Reader(s)) \/ (\E n \in Fut : WComplete(n))
+Next == Sender \/ (\E s \in Subs : Reader(s)) \/ (\E n \in Fut : WComplete(n)) \/ KKill
 
-Done == spc = "done" /\ (\A s \in Subs : rpc[s] = "done") /\ futDone = Fut
-Fairness == WF_vars(Sender) /\ (\A s \in Subs : WF_vars(Reader(s))) /\ (\A n \in Fut : WF_vars(WComplete(n)))
+Done == spc = "done" /\ (\A s \in Subs : rpc[s] = "done") /\ futDone = Fut /\ kpc = "done"
+Fairness == WF_vars(Sender) /\ (\A s \in Subs : WF_vars(Reader(s))) /\ (\A n \in Fut : WF_vars(WComplete(n))) /\ WF_vars(KKill)
 Spec == Init /\ [][Next]_vars /\ Fairness
 
 (* ------------------------------- P-level (C05) ------------------------------- *)
 TypeOK == box \subseteq 0..NMsg /\ nSent \in 0..(NMsg + 1)
 CapInv == ~Lazy => Cardinality(box) <= Cap
 InOrder == \A s \in Subs : got[s] = [i \in 1..Len(got[s]) |-> i - 1]
-Complete == Done => \A s \in Subs : got[s] = [i \in 1..NMsg |-> i - 1]
+Complete == (Done /\ ~killed) => \A s \in Subs : got[s] = [i \in 1..NMsg |-> i - 1]
 NoError == spc # "error"
 NoDeadlock == Done \/ ENABLED Next
 Termination == <>Done
